@@ -18,6 +18,16 @@ func Prog(s ast.Stmt) string {
 	return b.String()
 }
 
+// SkipParens makes the serialiser drop ParenExpr nodes (used to compare trees up to parentheses).
+var SkipParens bool
+
+// ProgNoParens renders the program without ParenExpr nodes.
+func ProgNoParens(s ast.Stmt) string {
+	SkipParens = true
+	defer func() { SkipParens = false }()
+	return Prog(s)
+}
+
 func name(n string) string {
 	if n == "" {
 		return "_"
@@ -231,6 +241,10 @@ func expr(b *strings.Builder, e ast.Expr) {
 		expr(b, x.Expr)
 		b.WriteByte(')')
 	case *ast.ParenExpr:
+		if SkipParens {
+			expr(b, x.SubExpr)
+			return
+		}
 		b.WriteString("(paren ")
 		expr(b, x.SubExpr)
 		b.WriteByte(')')
